@@ -9,7 +9,7 @@ RULE = ("correspondence: worlds with up to 6 overlapping area features / plumes,
         "composition models the answer must equal the fold of the declared operations over the covering features starting from the background, computed independently "
         "in double arithmetic. non-trivial = at least one feature covers the point.")
 TRUSTED_BASE = []
-ASSUMPTIONS = ["slab/fault models mass conserving, plate model, water content and random grains are not yet inside the Lean model"]
+ASSUMPTIONS = ["a world the Lean driver cannot elaborate is answered `err unsupported` and skipped by the correspondence (counted in this file)"]
 
 GLOBAL_KEYS = ["version", "coordinate system", "gravity model", "potential mantle temperature", "surface temperature", "force surface temperature",
                "thermal expansion coefficient", "specific heat", "thermal diffusivity", "cross section", "random number seed"]
